@@ -216,8 +216,11 @@ func RefFind(routes []RefRoute, path string) (key string, caps []Capture, ok boo
 		bt := false
 
 		for _, r := range cd.routes {
-			if r.Holds == nil || r.Holds(cd.caps) {
-				return r.RuleKey, cd.caps, true, inspected, backtracked
+			// every route sees the values under its own wildcard names
+			rc, _ := r.Expr.Match(path)
+
+			if r.Holds == nil || r.Holds(rc) {
+				return r.RuleKey, rc, true, inspected, backtracked
 			}
 
 			bt = r.Backtrack
